@@ -96,9 +96,11 @@ func (f *Reduce) Call(s *slip.Scope, args slip.List, depth int) (result slip.Obj
 	}
 	if v, has := slip.GetArgsKeyValue(args, slip.Symbol(":key")); has {
 		keyFunc := ResolveToCaller(s, v, d2)
+		keys := make(slip.List, len(list))
 		for i, v2 := range list {
-			list[i] = keyFunc.Call(s, slip.List{v2}, d2)
+			keys[i] = keyFunc.Call(s, slip.List{v2}, d2)
 		}
+		list = keys
 	}
 	var hasInit bool
 	if v, has := slip.GetArgsKeyValue(args, slip.Symbol(":initial-value")); has {
